@@ -62,7 +62,7 @@ def calculate_normal_3d(polygon):
         normal[0] += minus[1] * plus[2]
         normal[1] += minus[2] * plus[0]
         normal[2] += minus[0] * plus[1]
-    if near_zero(normal):
+    if not np.any(normal):
         raise ValueError("No normal found")
     else:
         return normal
@@ -161,6 +161,9 @@ def triangulate(polygon):
     polygon = [np.array(x) for x in polygon]
 
     normal = calculate_normal(polygon)
+    # The convexity test below compares a quantity of dimension length^4, so the
+    # threshold must scale with the polygon (|normal| is twice its area).
+    eps = 1E-6 * np.dot(normal, normal) / 4 if len(polygon[0]) == 3 else 1E-6
     i = 0
     while len(polygon) > 2:
         if i >= len(polygon):
@@ -175,7 +178,7 @@ def triangulate(polygon):
         x = np.cross(c - b, b - a)
         dot = np.dot(normal, x)
         yld = False
-        if dot > 1E-6:
+        if dot > eps:
             triangle = (a, b, c)
             if not any_point_in_triangle(triangle,
                                          looped_slice_inv(polygon, i, 3)):
